@@ -35,6 +35,7 @@ pub fn plan(check: Check, seed: u64) -> (Profile, OpMix) {
         tag_on_modifiers: false,
         extra: 6,
         tiny_patterns: true,
+        non_ascii_urls: false,
     };
     let mix = OpMix { n_ops: (6, 40), blocker_driver: false, tags: 25, clock: 15, evict: 12, serial: 10, restart: 3, resources: 6, add_filter: 0, optimize: 0, queries: 30 };
     match check {
@@ -50,9 +51,10 @@ pub fn plan(check: Check, seed: u64) -> (Profile, OpMix) {
             }
         }
         Check::C05 => {
-            let p = Profile { p_tag: 30, p_regexish: 40, cosmetic: false, perms: false, extra: 10, ..base };
+            let p = Profile { p_tag: 30, p_regexish: 40, cosmetic: false, perms: false, extra: 10, non_ascii_urls: true, ..base };
             if r.chance(50) {
-                (Profile { badfilter: false, ..p }, OpMix { blocker_driver: true, add_filter: 10, optimize: 14, serial: 0, restart: 0, tags: 20, ..mix })
+                // (no non-ASCII URLs with add_filter: incremental and batch indexing choose buckets differently)
+                (Profile { badfilter: false, non_ascii_urls: false, ..p }, OpMix { blocker_driver: true, add_filter: 10, optimize: 14, serial: 0, restart: 0, tags: 20, ..mix })
             } else {
                 (p, OpMix { serial: 0, restart: 0, ..mix })
             }
@@ -62,7 +64,7 @@ pub fn plan(check: Check, seed: u64) -> (Profile, OpMix) {
             OpMix { tags: 40, serial: 12, restart: 5, clock: 8, evict: 8, resources: 2, ..mix },
         ),
         Check::C08 => (
-            Profile { p_tag: 30, ..base },
+            Profile { p_tag: 30, non_ascii_urls: true, ..base },
             OpMix { tags: 18, serial: 25, restart: 15, clock: 5, evict: 5, resources: 5, queries: 25, ..mix },
         ),
     }
